@@ -85,6 +85,18 @@ SKELETONS = {
             "comp": {"type": "object", "title": "Comp", "properties": {"n": {"type": "integer"}}, "anyOf": [{"required": ["n"]}, {"required": ["m"]}], "default": {"m": 1}}},
         "definitions": {"Unused": {"type": "object", "properties": {"z": {"type": "boolean"}}}}}},
         "doc.json", '{"tl": ({"n": x} if h1 else x), **({"comp": ({"n": y} if y > 0 else {"q": y})} if h2 else {})}'),
+    "boolean_subschemas": ({"doc.json": {
+        "type": "object", "title": "Root", "properties": {
+            "never": False, "always": True,
+            "none": {"type": "array", "items": False},
+            "notnot": {"not": False},
+            "names": {"type": "object", "title": "Names", "propertyNames": False},
+            "has": {"type": "array", "contains": True, "items": {"type": "integer"}}},
+        "additionalProperties": {"type": "integer"}}},
+        "doc.json", '{"always": x, **({"none": ([] if h2 else [y])} if h1 else {"has": [x, y], "names": ({} if h2 else {"k": 1})}), "notnot": y, "extra": x}'),
+    "false_only_in_single_positions": ({"doc.json": {
+        "type": "object", "title": "Root", "properties": {"gone": False, "n": {"type": "integer", "minimum": 0}}, "required": ["n"]}},
+        "doc.json", '{"n": x, **({"gone": y} if h1 else {}), **({"other": y} if h2 else {})}'),
     "pointer_entry": ({"doc.json": {"definitions": {"Entry": {"type": "object", "properties": {"k": {"$ref": "#/definitions/K"}}, "required": ["k"]},
                                                     "K": {"type": "object", "properties": {"n": {"type": "integer", "minimum": 2}}}}}},
                       "doc.json#/definitions/Entry", '{"k": ({"n": x} if h1 else {"m": y}), **({"z": y} if h2 else {})}'),
@@ -200,7 +212,7 @@ def accepted(name, v):
 
 def harnesses(ctx) -> List[H]:
     hs: List[H] = []
-    quick = {"root_def_def", "shared_def", "cross_file", "untitled_nested", "repeated_titles", "defaults_equal_to_constructor", "renamed_and_literals"}
+    quick = {"root_def_def", "shared_def", "cross_file", "untitled_nested", "repeated_titles", "defaults_equal_to_constructor", "renamed_and_literals", "boolean_subschemas", "false_only_in_single_positions"}
     for name, (_files, _entry, build) in SKELETONS.items():
         hs.append(mk(f"c02_{name}", "x: int, y: int, h1: bool, h2: bool", [], f"v = {build}\nreturn equivalent({name!r}, v)", timeout=200, group="skeleton",
                      tier="quick" if name in quick else "thorough", covers=f"skeleton {name}: main() output executes, defines the parser's classes (equal), root verdict/result equal for the value family {build}"))
